@@ -703,6 +703,9 @@ class SamplingMethod(DirectMethod):
         # Only the states are available as polynomials: anything else that moves within the interval cannot be certified
         if ca.depends_on(c, vertcat(stage.xq, stage.z)):
             raise Exception("A grid='inf' constraint may not depend on quadrature states or algebraic variables.")
+        # The relation is imposed on the coefficient vector of ONE polynomial: a vector-valued constraint would be paired with it entry by entry
+        if not c.is_scalar():
+            raise Exception("A grid='inf' constraint must be scalar-valued (got shape " + str(c.shape) + "): declare one constraint per component.")
         coeff = stage._method.poly_coeff[k * self.M + l]
 
         # Represent polynomial as a BSpline object (https://gitlab.kuleuven.be/meco-software/rockit/-/blob/v0.1.28/rockit/splines/spline.py#L392)
